@@ -240,12 +240,12 @@ Lemma write_leaf_overflow_u k w nm z :
 Proof. intros Hk Hr. destruct k; try contradiction; simpl; now rewrite Hr. Qed.
 
 Lemma write_leaf_overflow_f32 nm z :
-  (float_max 32 * 1024 < Z.abs z)%Z ->
+  (float_max 32 * 1024 < Z.abs z)%Z -> Z.abs z <> float_inf ->
   write_leaf PStd (FkFloat 64) (TPtr (TBasic (KFloat 32) nm)) (VFloat z) = Err 31.
 Proof.
-  intros H. unfold write_leaf, fits.
-  destruct (Z.abs z <=? float_max 32 * 1024)%Z eqn:E; [|reflexivity].
-  apply Z.leb_le in E. lia.
+  intros H Hi. unfold write_leaf, fits.
+  destruct (Z.abs z <=? float_max 32 * 1024)%Z eqn:E; [apply Z.leb_le in E; lia|].
+  destruct (Z.abs z =? float_inf)%Z eqn:E2; [apply Z.eqb_eq in E2; contradiction|reflexivity].
 Qed.
 
 (* whatever the package: if some visited flag cannot be written, or an
